@@ -269,6 +269,17 @@ class C05(Check):
                     d.update(r=1, maxit=maxit, nconv=nconv, script=script_for(word), tr=0, seed=7)
                     runs["w%d_%d_%s" % (maxit, nconv, "".join("P" if x else "F" for x in word))] = (RunCase(**d), word)
         self.cov["exhaustive_words_up_to_length"] = maxlen
+        # limits that mean "no limit": above INT_MAX, above 2^32, the largest size_t
+        for n, big in enumerate([2 ** 31, 2 ** 31 + 5, 2 ** 32, 2 ** 32 + 7, 3 * 10 ** 9, 2 ** 63, 2 ** 64 - 1]):
+            for word, nconv in (((False, True, True), 2), ((False, False, True, True, True), 3), ((True,), 1)):
+                d = dict(net_rc.__dict__)
+                d.update(r=1, maxit=big, nconv=nconv, script=script_for(word), tr=0, seed=7)
+                runs["bigmax%d_%d" % (n, nconv)] = (RunCase(**d), word)
+            for maxit in (1, 21, 32):
+                word = (False,) + (True,) * ((maxit + 9) // 10 - 1)
+                d = dict(net_rc.__dict__)
+                d.update(r=1, maxit=maxit, nconv=big, script=script_for(word), tr=0, seed=7)
+                runs["bigconv%d_%d" % (n, maxit)] = (RunCase(**d), word)
         # random long words on random variants
         for k in range(60 if self.tier == "quick" else 600):
             maxit = rng.randint(1, 200)
